@@ -698,6 +698,27 @@ def run_history(case):
                            float(np.abs(runs[1] - runs[0]).max())))
         return runs[0]
 
+    def op_gradloop(ob, pt):
+        """An optimiser loop: ONE system and ONE parameter table, the table
+        updated in place between the calls; every call must answer for the
+        values the table holds at that time."""
+        tab = pars.copy()
+        worst_ = 0.0
+        for rep in range(3):
+            tab[...] = pars * (1.0 + 0.4 * rep)
+            r = oqupy.state_gradient(ob["psys"], rho.copy(), tgt.copy(), [pt],
+                                     tab, progress_type="silent")
+            f = oqupy.state_gradient(
+                oqupy.ParameterizedSystem(lambda x: x * h), rho.copy(),
+                tgt.copy(), [pt], tab.copy(), progress_type="silent")
+            worst_ = max(worst_, float(np.abs(
+                np.asarray(r["gradient"]) - np.asarray(f["gradient"])).max()),
+                float(np.abs(np.array(r["dynamics"].states)
+                             - np.array(f["dynamics"].states)).max()))
+        reuse_devs.append(("ParameterizedSystem and parameter table re-used "
+                           "in a loop, table updated in place", worst_))
+        return np.zeros(1)
+
     def op_ptlist(ob, pt):
         """The list of process tensors handed to PtTebd belongs to the
         caller: it is not rewritten, and re-using it for the next
@@ -813,7 +834,7 @@ def run_history(case):
         return b"".join(np.ascontiguousarray(x, dtype=complex).tobytes()
                         for x in parts)
 
-    ops = {"ptlist": op_ptlist, "scan5": op_scan5,
+    ops = {"gradloop": op_gradloop, "ptlist": op_ptlist, "scan5": op_scan5,
            "chainctl": op_chainctl, "bathdyn": op_bathdyn,
            "factory": op_factory, "ptedit": op_ptedit, "guess": op_guess, "peek": op_peek, "tempo": op_tempo, "dyn": op_dyn, "corr": op_corr,
            "grad": op_grad, "tebd": op_tebd, "pt": op_pt, "eta": op_eta,
@@ -829,7 +850,7 @@ def run_history(case):
     if i % 4 == 0:
         seq[0] = "factory"
     if i % 4 == 1:
-        seq[-1] = ["chainctl", "bathdyn", "ptlist"][(i // 4) % 3]
+        seq[-1] = ["chainctl", "bathdyn", "ptlist", "gradloop"][(i // 4) % 4]
     if i % 4 == 3 and len(seq) >= 4:
         # use the shared system, scan five others, use it again
         seq[1], seq[2], seq[3] = "dyn", "scan5", "dyn"
@@ -845,7 +866,7 @@ def run_history(case):
         seq[0], seq[-1] = ctl[k0], ctl[(k0 + 1 + int(rng.integers(0, 2))) % 3]
     forced = {0: ["factory", "dyn", "ptedit", "dyn"],
               1: ["peek", "dyn", "peek", "chainctl"],
-              2: ["ctl", "peek", "ctl_dt", "ptedit", "grad"],
+              2: ["ctl", "peek", "ctl_dt", "ptedit", "grad", "gradloop"],
               3: ["guess", "dyn", "scan5", "dyn"],
               4: ["factory", "ctl", "ctl_shift", "tebd"],
               5: ["peek", "tempo", "peek", "bathdyn"],
